@@ -44,6 +44,14 @@ Definition to_ordinal_date md (d : date) : option date :=
 Definition to_week_date md (d : date) : option date :=
   match get_week_date md d with Some (y, w, dd) => Some (Wk y w dd) | None => None end.
 
+(* the date part of TimePoint._check_bounds *)
+Definition date_in_bounds (md : mode) (d : date) : bool :=
+  match d with
+  | Cal y m dd => (1 <=? m) && (m <=? 12) && (1 <=? dd) && (dd <=? get_days_in_month md m y)
+  | Ord y doy => (1 <=? doy) && (doy <=? get_days_in_year md y)
+  | Wk y w dd => (1 <=? w) && (w <=? get_weeks_in_year md y) && (1 <=? dd) && (dd <=? 7)
+  end.
+
 (* ---------- time of day ---------- *)
 Definition get_hour_minute_second (t : tod) : Q * Q * Q :=
   match t with
